@@ -93,14 +93,9 @@ func (l *sessionManager) RemoveLock(name string, key string, sessionId string) {
 	l.sessionLocksMtx.Lock()
 	defer l.sessionLocksMtx.Unlock()
 
-	locks, ok := l.sessionLocks[sessionId]
-	if !ok {
-		panic(fmt.Sprintf("Client with session id '%s' has no session entry", sessionId))
-	}
-	if locks == nil {
-		panic(fmt.Sprintf("Client with session id '%s' has a nil session entry", sessionId))
-	}
-
+	// The session of the client removing the lock may already have ended (its connection was closed
+	// while the request was in flight), so it is not an error for sessionId to have no entry.
+	//
 	// The lock is not necessarily held by the session that is removing it: any client that knows
 	// the key may unlock it, and locks loaded from the state file belong to sessions of a previous
 	// run. Remove it from whichever session holds it.
